@@ -3,6 +3,7 @@
 #include "btdmp_spec.h"
 #include "btdmp_contracts.h"
 #include "common.h"
+#include "spec_touch.h"
 int verif_outcome;
 int ghost_btdmp_irq;
 u64 ghost_audio_count, ghost_audio_watch;
